@@ -301,6 +301,38 @@ func polyBig(coef []float64, x float64) *big.Float {
 	return s
 }
 
+// fConsistent checks that F evaluates the polynomial with the returned
+// coefficients at every probe (and at the data's ends and middle).
+func fConsistent(c *PolyCase, res fit.PolynomialRegressionResult) string {
+	d := c.Degree
+	probes := append([]float64(nil), c.Probe...)
+	probes = append(probes, c.Xs[0], c.Xs[len(c.Xs)-1], c.Xs[len(c.Xs)/2], 0, 1, -1)
+	for _, x := range probes {
+		want := ref.F64(polyBig(res.Coefficients, x))
+		// F may evaluate the same polynomial by any scheme - powers, Horner, or in a variable
+		// shifted to a centre m inside the data (better conditioned there): the rounding error
+		// of the latter is bounded by eps * sum |c_i| (|m|+|x-m|)^i, which is the usual
+		// eps * sum |c_i| |x|^i for m = 0.
+		xlo, xhi := c.Xs[0], c.Xs[0]
+		for _, v := range c.Xs {
+			xlo, xhi = math.Min(xlo, v), math.Max(xhi, v)
+		}
+		// Converting the coefficients between the two variables (once) costs another
+		// eps * sum |c_i| (2|m|+|x|)^i, which covers both.
+		R := math.Abs(x) + 2*math.Max(math.Abs(xlo), math.Abs(xhi))
+		mag := 0.0
+		xp := 1.0
+		for _, v := range res.Coefficients {
+			mag += math.Abs(v) * xp
+			xp *= R
+		}
+		if got := res.F(x); !(math.Abs(got-want) <= 8*float64(d+1)*ref.Eps*mag+1e-300) {
+			return fmt.Sprintf("F(%v) = %.17g, sum of Coefficients[i]*x^i = %.17g", x, got, want)
+		}
+	}
+	return ""
+}
+
 var checkPoly = ev.Register("polynomial-regression", func(c *PolyCase) ev.Outcome {
 	n, d := len(c.Xs), c.Degree
 	if d < 0 || n < d+2 || (c.W != nil && len(c.W) != n) || (c.Noise != nil && len(c.Noise) != n) {
@@ -320,9 +352,6 @@ var checkPoly = ev.Register("polynomial-regression", func(c *PolyCase) ev.Outcom
 	}
 	X := design(c.Xs, fs)
 	cond := condNormal(X, c.W)
-	if !(cond < condLimit) {
-		return ev.OK(false, "discarded-ill-conditioned")
-	}
 	xs, yy := append([]float64(nil), c.Xs...), append([]float64(nil), ys...)
 	var w []float64
 	if c.W != nil {
@@ -334,6 +363,19 @@ var checkPoly = ev.Register("polynomial-regression", func(c *PolyCase) ev.Outcom
 	}
 	if len(res.Coefficients) != d+1 {
 		return ev.Fail("degree %d: %d coefficients", d, len(res.Coefficients))
+	}
+	if !(cond < condLimit) {
+		// Outside "well-conditioned designs" nothing is claimed about the values of the
+		// coefficients, but F and Coefficients still describe one polynomial.
+		for _, v := range res.Coefficients {
+			if math.IsNaN(v) || math.IsInf(v, 0) {
+				return ev.OK(false, "discarded-ill-conditioned")
+			}
+		}
+		if msg := fConsistent(c, res); msg != "" {
+			return ev.Fail("%s (ill-conditioned design, cond %.3g: only the consistency of F and Coefficients is checked)", msg, cond)
+		}
+		return ev.OK(false, "ill-conditioned-F-vs-coefficients-only")
 	}
 	cmax := 1e-3
 	for _, v := range res.Coefficients {
@@ -396,18 +438,8 @@ var checkPoly = ev.Register("polynomial-regression", func(c *PolyCase) ev.Outcom
 			}
 		}
 	}
-	// F evaluates the polynomial with the returned coefficients
-	for _, x := range c.Probe {
-		want := ref.F64(polyBig(res.Coefficients, x))
-		mag := 0.0
-		xp := 1.0
-		for _, v := range res.Coefficients {
-			mag += math.Abs(v) * xp
-			xp *= math.Abs(x)
-		}
-		if got := res.F(x); !(math.Abs(got-want) <= 8*float64(d+1)*ref.Eps*mag+1e-300) {
-			return ev.Fail("F(%v) = %.17g, sum of Coefficients[i]*x^i = %.17g", x, got, want)
-		}
+	if msg := fConsistent(c, res); msg != "" {
+		return ev.Fail("%s", msg)
 	}
 	return ev.OK(d >= 1 && n >= d+3, classes...)
 })
@@ -646,6 +678,18 @@ func TestPolynomial(t *testing.T) {
 		c := &PolyCase{Xs: drawXs(rt, n), Degree: d, W: drawWeights(rt, n)}
 		gd := rapid.IntRange(0, d).Draw(rt, "genDegree")
 		symmetric := rapid.IntRange(0, 3).Draw(rt, "symmetric") == 0
+		if !symmetric && rapid.IntRange(0, 4).Draw(rt, "offcentre") == 0 {
+			// a narrow design far from the origin relative to its width (all x of one sign,
+			// max|x| < 3 min|x|): where an implementation would recentre; usually too
+			// ill-conditioned in the monomial basis for the value checks, but F and
+			// Coefficients must still agree
+			centre := gen.Sign(rt, "offsign") * rapid.Float64Range(1, 3).Draw(rt, "offcentreAt")
+			half := math.Abs(centre) * rapid.Float64Range(0.05, 0.45).Draw(rt, "offhalf")
+			for i := range c.Xs {
+				c.Xs[i] = centre + half*(2*(float64(i)+0.5)/float64(n)-1)
+			}
+			gd = d
+		}
 		if symmetric {
 			// abscissae symmetric about 0 on a dyadic grid, no weights, and a sparse even or odd
 			// polynomial with small integer coefficients: the odd (or even) moments cancel exactly and
